@@ -26,10 +26,13 @@ Forms   == {"bare", "call", "name", "scope0", "scope1", "scope2", "scope3", "sco
 \* mark above / below it (fixtures may carry marks: their names are usages like on tests)
 \* kwdeco_*: an unrelated CALLED decorator that carries keyword arguments spelled like the fixture decorator's own
 \* (name=, scope=, autouse=): only the fixture decorator's arguments count
+\* preset_before: in front of the function, at its level, assignments that merely PRESET the decorator
+\* (`session_fixture = pytest.fixture(scope="session")`): a decorator factory call that is not applied to a function declares nothing
 Extras  == {"none", "before", "after", "usefix_before", "usefix_after", "indirect_before", "indirect_after", "marks_around",
-            "kwdeco_before", "kwdeco_after"}
+            "kwdeco_before", "kwdeco_after", "preset_before"}
 Places  == {"module", "class", "nested_class", "if"}
-PKinds  == {"plain", "posonly", "kwonly", "default", "annot", "self", "request", "star", "kw"}
+\* aliasname: a plain parameter spelled like the `name=` alias the fixture decorator gives ("custom_name"): an ordinary dependency
+PKinds  == {"plain", "posonly", "kwonly", "default", "annot", "self", "request", "star", "kw", "aliasname"}
 Bodies  == {"return", "yield_top", "yield_if", "yield_else", "yield_for", "yield_while", "yield_with", "yield_async_with",
             "yield_async_for", "yield_try", "yield_except", "yield_tryelse", "yield_finally", "yield_nested_def",
             "yield_from", "yield_assign", "yield_lambda_only",
@@ -46,17 +49,21 @@ ParamSeqs == {<<>>} \cup { <<a>> : a \in PKinds } \cup { <<a, b>> : a \in PKinds
              \cup { <<"self", "plain", "request">>, <<"posonly", "plain", "kwonly">>, <<"plain", "default", "star">>,
                     <<"annot", "annot", "kw">> }
 \* legal Python orderings only: posonly first, then plain/annot/default/self/request, star, kwonly, kw
-Rank(k) == CASE k = "posonly" -> 0 [] k = "self" -> 1 [] k \in {"plain", "annot", "request"} -> 2 [] k = "default" -> 3
+Rank(k) == CASE k = "posonly" -> 0 [] k = "self" -> 1 [] k \in {"plain", "annot", "request", "aliasname"} -> 2 [] k = "default" -> 3
              [] k = "star" -> 4 [] k = "kwonly" -> 5 [] k = "kw" -> 6
 Count(ps, k) == Cardinality({ i \in 1..Len(ps) : ps[i] = k })
 LegalParams(ps) == /\ \A i \in 1..Len(ps) : \A j \in 1..Len(ps) : i < j => Rank(ps[i]) <= Rank(ps[j])
                    /\ Count(ps, "self") <= 1 /\ Count(ps, "star") <= 1 /\ Count(ps, "kw") <= 1 /\ Count(ps, "request") <= 1
+                   /\ Count(ps, "aliasname") <= 1
 
 Funcs ==
     CASE Group = "deco"   -> { [Base EXCEPT !.deco = d, !.form = f, !.extra = e, !.async = a, !.place = p]
                                : d \in Decos, f \in Forms, e \in Extras, a \in BOOLEAN, p \in Places }
       [] Group = "params" -> { [Base EXCEPT !.params = ps, !.place = p, !.async = a]
                                : ps \in { x \in ParamSeqs : LegalParams(x) }, p \in {"module", "class"}, a \in BOOLEAN }
+                             \* the decorator renames the fixture and a parameter is spelled like that name
+                             \cup { [Base EXCEPT !.params = ps, !.form = "name"]
+                                    : ps \in { x \in ParamSeqs : LegalParams(x) /\ Count(x, "aliasname") = 1 } }
       [] Group = "body"   -> { f \in { [Base EXCEPT !.body = b, !.ret = r, !.async = a] : b \in Bodies, r \in Rets, a \in BOOLEAN } :
                                  /\ (f.body \in {"yield_async_with", "yield_async_for"} => f.async)
                                  /\ (f.body \in {"yield_from", "yield_lambda_only"} => ~f.async) }
@@ -77,6 +84,7 @@ ScopeOf(f) == CASE f.form = "scope0" -> 0 [] f.form = "scope1" -> 1 [] f.form = 
                 [] f.form = "scope4" -> 4 [] f.form = "scope_autouse" -> 2 [] OTHER -> 0
 AutouseOf(f) == f.form \in {"autouse_t", "scope_autouse"}
 ParamName(k, i) == CASE k = "self" -> "self" [] k = "request" -> "request" [] k = "star" -> "args" [] k = "kw" -> "kwargs"
+                     [] k = "aliasname" -> "custom_name"
                      [] OTHER -> IF i = 1 THEN "dep_a" ELSE IF i = 2 THEN "dep_b" ELSE "dep_c"
 DepsOf(f) == LET ps == f.params
                  keep == { i \in 1..Len(ps) : ps[i] \notin {"self", "request", "star", "kw"} }
